@@ -1,6 +1,7 @@
 package c04
 
 import (
+	"context"
 	"fmt"
 	"strings"
 	"sync"
@@ -92,6 +93,11 @@ func TestProp_FileStages(t *testing.T) {
 				fmt.Fprintf(&b, "- duration: %dms\n  mode: constant\n  rate: %d/1s\n  jitter: 0\n  distribution: none\n", st.DurMs, conc+extra)
 			}
 		}
+		// f1 gives the whole plan a budget of the sum of its stage durations; stages that start late (a
+		// loaded machine, stragglers) eat into the last stage, which may then never get its first tick
+		// accepted. A final idle stage (no requests) that is not judged keeps the judged ones clear of
+		// the end of the budget; the run is cancelled as soon as it begins.
+		b.WriteString("- duration: 2s\n  mode: constant\n  rate: 0/1s\n  jitter: 0\n  distribution: none\n")
 		yaml := b.String()
 		desc := strings.ReplaceAll(yaml, "\n", "|") + fmt.Sprintf(" tails=%v", func() []int {
 			var r []int
@@ -102,9 +108,13 @@ func TestProp_FileStages(t *testing.T) {
 		}())
 
 		var begun atomic.Int32 // number of stages that have begun
+		ctx, cancel := context.WithCancel(context.Background())
+		defer cancel()
 		remove := vlib.InstallGates(func(point string) {
 			if point == "file.stage.begin" {
-				begun.Add(1)
+				if int(begun.Add(1)) > n {
+					cancel() // the idle padding stage has begun: the judged stages are over
+				}
 			}
 		})
 		defer remove()
@@ -182,7 +192,7 @@ func TestProp_FileStages(t *testing.T) {
 				}
 			}
 		}
-		spec := &vlib.RunSpec{Mode: "file", FileYAML: yaml, FileDir: dir, ScenarioFn: scenario, WaitTimeout: 20 * time.Second}
+		spec := &vlib.RunSpec{Mode: "file", FileYAML: yaml, FileDir: dir, ScenarioFn: scenario, WaitTimeout: 20 * time.Second, Ctx: ctx}
 		// one case in three through `run file <path>`: the CLI's own mapping of the file's limits
 		viaCLI := rapid.IntRange(0, 2).Draw(rt, "viaCLI") == 0
 		var err error
